@@ -155,10 +155,19 @@ impl GmWorld {
                 words(&crate::bitmap::bm_words(r.bitmap())))
     }
     fn fmt_state(&self, m: &AnyMem) -> String {
-        with_mem!(m, M => M.iter().map(|r| self.fmt_region(r)).collect::<Vec<_>>().join(" "))
+        let mut v: Vec<(u64, String)> = with_mem!(m, M => M.iter().map(|r| (r.start_addr().raw_value(), self.fmt_region(r))).collect());
+        if matches!(m, AnyMem::Linear(_)) {
+            v.sort();
+        }
+        v.into_iter().map(|x| x.1).collect::<Vec<_>>().join(" ")
     }
     fn fmt_layout(&self, m: &AnyMem) -> String {
-        with_mem!(m, M => M.iter().map(|r| format!("{}:{}:{}", r.start_addr().raw_value(), r.len(), self.rid_of(r))).collect::<Vec<_>>().join(","))
+        // the mmap collection promises address order; the hand-rolled one iterates in "plug" order, canonicalised here
+        let mut v: Vec<(u64, u64, u64)> = with_mem!(m, M => M.iter().map(|r| (r.start_addr().raw_value(), r.len(), self.rid_of(r))).collect());
+        if matches!(m, AnyMem::Linear(_)) {
+            v.sort();
+        }
+        v.iter().map(|(s, l, r)| format!("{}:{}:{}", s, l, r)).collect::<Vec<_>>().join(",")
     }
 
     /// create one region; returns (region or error string, host base)
@@ -346,11 +355,18 @@ impl GmWorld {
     /// C10: every live map still lists exactly the regions the oracle recorded for it
     fn check_layouts(&self, rec: &mut Rec, op: &str, line: &str) {
         for (mi, m) in &self.mems {
-            let got: Vec<u64> = with_mem!(m, M => M.iter().map(|r| self.rid_of(r)).collect());
+            let mut got: Vec<(u64, u64)> = with_mem!(m, M => M.iter().map(|r| (r.start_addr().raw_value(), self.rid_of(r))).collect());
+            if matches!(m, AnyMem::Linear(_)) {
+                got.sort();
+            }
+            let got: Vec<u64> = got.into_iter().map(|x| x.1).collect();
             if Some(&got) != self.layouts.get(mi) {
                 rec.fail("C10", &format!("{}/map-changed", op), &format!("{} map={} got={:?} want={:?}", line, mi, got, self.layouts.get(mi)));
             }
-            let starts: Vec<(u64, u64)> = with_mem!(m, M => M.iter().map(|r| (r.start_addr().raw_value(), r.len())).collect());
+            let mut starts: Vec<(u64, u64)> = with_mem!(m, M => M.iter().map(|r| (r.start_addr().raw_value(), r.len())).collect());
+            if matches!(m, AnyMem::Linear(_)) {
+                starts.sort();
+            }
             for w in starts.windows(2) {
                 if w[0].0 as u128 + w[0].1 as u128 > w[1].0 as u128 {
                     rec.fail("C10", &format!("{}/unsorted-or-overlapping", op), &format!("{} map={}", line, mi));
@@ -448,7 +464,13 @@ impl GmWorld {
                 let res = GuestMemoryMmap::from_arc_regions(regs.clone());
                 let out = match res {
                     Ok(g) => {
-                        let m = if kv.s("kind") == "linear" { AnyMem::Linear(LinearMem { regions: regs }) } else { AnyMem::Mmap(g) };
+                        let m = if kv.s("kind") == "linear" {
+                            // "plug order": the hand-rolled implementation does not keep its regions sorted (nothing in
+                            // the trait asks for it): the lowest region is iterated last
+                            let mut regs = regs;
+                            if regs.len() > 1 { regs.rotate_left(1); }
+                            AnyMem::Linear(LinearMem { regions: regs })
+                        } else { AnyMem::Mmap(g) };
                         let o = format!("ok {}", self.fmt_layout(&m));
                         self.mems.insert(mi, m);
                         self.layouts.insert(mi, rids);
